@@ -30,7 +30,7 @@ MANIFEST = dict(
     text="ORG, RORG, PHASE, DEPHASE (incl. the PHASE;DEPHASE pair), SEGMENT switching and ALIGN of asmallg.c are verified on the real "
          "translation unit for every segment, every 64-bit counter/offset and every evaluator answer: labels read load counter + phase, "
          "only the active segment is touched (witness segment), DEPHASE restores the offset saved by the matching PHASE, a moved counter or "
-         "segment change forces a new record, ALIGN n reserves/fills exactly (n - address mod n) mod n and rejects n = 0.",
+         "segment change forces a new record, ALIGN n reserves/fills exactly (n - address mod n) mod n and rejects n = 0. SAVE/RESTORE reinstate the CPU, the segment (forcing a new record) and the listing state of the matching SAVE; a label in a STRUCT/UNION body records its field at the offset counted from the innermost named structure.",
     note="ALIGN's remainder obligation is discharged by the z3 SMT back end (two equal 64-bit bvurem terms; SAT bit-blasting times out). "
          "Not under contract: STRUCT/ENDSTRUCT, SAVE/RESTORE. Trusted: evaluator oracle, ProgCounter/EProgCounter mirrored in the harness, "
          "BookKeeping stub, memset monitor.",
